@@ -819,6 +819,17 @@ def scope_patterns():
                         i2 = TabG(inner) if tab_inner else dict(inner)
                         g = {"main": T("*", T("<-", Kw("x")), i2, T("?", T("<-", Kw("x")))), "x": a, "y": b}
                         out.append(TabG(g) if tab_outer else g)
+    # an outer rule that is already compiled (or being compiled) is referenced inside a nested grammar BEFORE a name the
+    # nested grammar shadows or defines on its own: the scope must still be the inner one afterwards
+    for a in abc:
+        for c in abc:
+            for tab_inner in (False, True):
+                inner = {"main": T("*", Kw("y"), T("<-", Kw("x")), T("?", Kw("z"))), "x": c, "z": b"b"}
+                i2 = TabG(inner) if tab_inner else dict(inner)
+                out.append({"main": T("*", Kw("y"), i2, T("?", T("<-", Kw("x")))), "x": a, "y": T("<-", 1)})
+                out.append({"main": T("*", Kw("y"), i2), "x": a, "y": T("*", T("?", Kw("x")), 1)})
+    out.append({"a": b"a", "b": T("*", Kw("a"), 1), "main": T("*", Kw("b"), {"a": b"b", "main": T("*", Kw("b"), T("<-", Kw("a")))}, -1)})
+    out.append({"main": T("+", T("*", b"a", {"sep": b"b", "main": T("*", Kw("item"), Kw("sep"))}), b""), "item": T("<-", 1), "sep": b"a"})
     out.append({"main": Kw("x"), "x": Kw("y"), "y": T("<-", b"a")})
     out.append({"main": T("*", Kw("x"), {"main": Kw("x"), "x": Kw("y")}), "x": T("<-", 1), "y": T("<-", b"b")})
     out.append({"main": T("*", Kw("d"), Kw("x")), "d": T("<-", b"a"), "x": T("<-", Kw("d"))})
